@@ -1,32 +1,54 @@
-(* Proofs/C04RegionGet.v — sptensor.__getitem__ with a region (subdims + tt_renumber, model sp_region_get):
-   the returned sptensor holds, at the renumbered subscript of every region position, the value the tensor holds there. *)
+(* Proofs/C04RegionGet.v — sptensor.__getitem__ with a region (subdims filter + renumbering, model sp_region_get).
+   Wave 3b: an index list may REPEAT an index; the stored entry then appears at every position that names it.
+   The returned sptensor has the shape of the kept modes, holds at EVERY subscript j inside that shape the value the source
+   holds at the position j selects (select ls j), is well-formed, and stores one entry per (stored source entry, result
+   subscript selecting it). *)
 From Coq Require Import List Arith ZArith Lia Bool.
 From PV Require Import Base.Index Np.Array Model.Sparse Model.C04Model Proofs.C04Dense Proofs.C04Sparse.
 Import ListNotations.
 
-Section G.
-Context {V : Type} (v0 : V).
-
-Lemma index_of_nth x l k : index_of x l = Some k -> nth k l 0 = x.
+(* ---------------------------------------------------------------- positions of an index inside a list *)
+Lemma positions_from_spec x l : forall k0 k,
+  In k (positions_from k0 x l) <-> (k0 <= k < k0 + length l /\ nth (k - k0) l 0 = x).
 Proof.
-  revert k; induction l as [|y r IH]; intros k H; cbn in H; [discriminate|].
-  destruct (Nat.eqb_spec x y) as [->|Hne].
-  - inversion H. reflexivity.
-  - destruct (index_of x r) as [k'|]; [|discriminate]. inversion H. cbn. now apply IH.
+  induction l as [|y r IH]; intros k0 k; cbn [positions_from length].
+  - split; [contradiction|]. intros [H _]. lia.
+  - assert (E : forall A : Prop, (k = k0 /\ x = y) \/ (A /\ In k (positions_from (S k0) x r)) <->
+                (k = k0 /\ x = y) \/ In k (positions_from (S k0) x r) /\ A) by tauto.
+    destruct (Nat.eqb_spec x y) as [->|Hne]; cbn [In]; rewrite IH; split.
+    + intros [<-|[H1 H2]].
+      * split; [lia|]. now rewrite Nat.sub_diag.
+      * split; [lia|]. replace (k - k0) with (S (k - S k0)) by lia. exact H2.
+    + intros [H1 H2]. destruct (Nat.eq_dec k0 k) as [->|Hk]; auto. right. split; [lia|].
+      replace (k - k0) with (S (k - S k0)) in H2 by lia. exact H2.
+    + intros [H1 H2]. split; [lia|]. replace (k - k0) with (S (k - S k0)) by lia. exact H2.
+    + intros [H1 H2]. destruct (Nat.eq_dec k0 k) as [->|Hk].
+      * rewrite Nat.sub_diag in H2. cbn in H2. congruence.
+      * split; [lia|]. replace (k - k0) with (S (k - S k0)) in H2 by lia. exact H2.
 Qed.
 
-Lemma index_of_in x l : In x l -> exists k, index_of x l = Some k.
+Lemma positions_spec x l k : In k (positions_from 0 x l) <-> (k < length l /\ nth k l 0 = x).
+Proof. rewrite positions_from_spec, Nat.sub_0_r. cbn. intuition lia. Qed.
+
+Lemma positions_from_nodup x l : forall k0, NoDup (positions_from k0 x l).
 Proof.
-  induction l as [|y r IH]; intros H; [contradiction|]. cbn.
-  destruct (Nat.eqb_spec x y) as [->|Hne]; eauto.
-  destruct H as [->|H]; [contradiction|]. destruct (IH H) as (k & ->). cbn. eauto.
+  induction l as [|y r IH]; intros k0; cbn; [constructor|].
+  destruct (Nat.eqb x y); auto. constructor; auto.
+  rewrite positions_from_spec. lia.
 Qed.
 
-Lemma index_of_some_in x l k : index_of x l = Some k -> In x l.
+Lemma NoDup_flat_map {A B} (g : A -> list B) (ks : list A) :
+  NoDup ks -> (forall k, In k ks -> NoDup (g k)) ->
+  (forall k k' x, In k ks -> In k' ks -> In x (g k) -> In x (g k') -> k = k') -> NoDup (flat_map g ks).
 Proof.
-  revert k; induction l as [|y r IH]; intros k H; cbn in H; [discriminate|].
-  destruct (Nat.eqb_spec x y) as [->|Hne]; cbn; auto.
-  destruct (index_of x r) as [k'|]; [|discriminate]. right. eapply IH; eauto.
+  induction ks as [|k ks IH]; intros Hn Hg Hd; cbn; [constructor|].
+  inversion Hn; subst. apply NoDup_app_intro.
+  - apply Hg. cbn; auto.
+  - apply IH; auto.
+    + intros k' Hk'. apply Hg. cbn; auto.
+    + intros a b x Ha Hb. apply Hd; cbn; auto.
+  - intros x Hx F. apply in_flat_map in F as (k' & Hk' & Hx').
+    assert (k = k') by (apply (Hd k k' x); cbn; auto). subst. contradiction.
 Qed.
 
 (* a mode that is dropped from the result selects exactly one index *)
@@ -50,53 +72,164 @@ Proof.
     constructor; [now apply (elem_indices_single d e)|]. eapply IH; eauto.
 Qed.
 
-Lemma renumber_inj ls : drop_single ls -> forall p q j, renumber ls p = Some j -> renumber ls q = Some j -> p = q.
+(* ---------------------------------------------------------------- renumber_all against select *)
+Lemma renumber_all_sound ls : drop_single ls -> forall p j,
+  In j (renumber_all ls p) -> inb (kept_shape ls) j = true /\ select ls j = p.
 Proof.
-  induction 1 as [|[kept l] ls Hx Hls IH]; intros [|x p] [|y q] j Hp Hq; cbn in Hp, Hq; try discriminate; auto.
-  destruct (index_of x l) as [kx|] eqn:Ex; [|discriminate]. destruct (renumber ls p) as [rp|] eqn:Rp; [|discriminate].
-  destruct (index_of y l) as [ky|] eqn:Ey; [|discriminate]. destruct (renumber ls q) as [rq|] eqn:Rq; [|discriminate].
+  induction 1 as [|[kept l] ls Hx Hls IH]; intros [|x p] j Hj; cbn [renumber_all] in Hj; try contradiction.
+  - destruct Hj as [<-|[]]. split; reflexivity.
+  - apply in_flat_map in Hj as (k & Hk & Hj). apply in_map_iff in Hj as (r & <- & Hr).
+    apply positions_spec in Hk as [Hk1 Hk2]. destruct (IH p r Hr) as [I1 I2].
+    unfold kept_shape in *. destruct kept; cbn [filter fst map snd inb select hd tl].
+    + rewrite I1, I2, Hk2. split; auto. rewrite andb_true_r. now apply Nat.ltb_lt.
+    + destruct (Hx eq_refl) as (z & Hz). cbn in Hz. subst l. cbn in Hk1.
+      assert (k = 0) by lia. subst k. cbn in Hk2. subst z. cbn. rewrite I2. auto.
+Qed.
+
+Lemma renumber_all_complete ls : drop_single ls -> forall j,
+  inb (kept_shape ls) j = true -> In j (renumber_all ls (select ls j)).
+Proof.
+  induction 1 as [|[kept l] ls Hx Hls IH]; intros j Hj.
+  - destruct j; [|discriminate]. cbn. auto.
+  - unfold kept_shape in Hj. destruct kept; cbn [filter fst map snd] in Hj; cbn [select renumber_all].
+    + destruct j as [|k r]; [discriminate|]. cbn [inb] in Hj. apply andb_true_iff in Hj as [Hk Hr].
+      apply Nat.ltb_lt in Hk. cbn [hd tl]. apply in_flat_map. exists k. split.
+      * apply positions_spec. auto.
+      * apply in_map_iff. exists r. split; [reflexivity|]. apply IH. exact Hr.
+    + destruct (Hx eq_refl) as (z & Hz). cbn in Hz. subst l. cbn [hd positions_from]. rewrite Nat.eqb_refl.
+      cbn [flat_map]. rewrite app_nil_r. apply in_map_iff. exists j. split; [reflexivity|]. apply IH. exact Hj.
+Qed.
+
+Lemma renumber_all_nodup ls : drop_single ls -> forall p, NoDup (renumber_all ls p).
+Proof.
+  induction 1 as [|[kept l] ls Hx Hls IH]; intros [|x p]; cbn [renumber_all]; try constructor; auto; try constructor.
   destruct kept.
-  - inversion Hp; subst. inversion Hq; subst. f_equal; [|eapply IH; eauto].
-    apply index_of_nth in Ex. apply index_of_nth in Ey. congruence.
-  - inversion Hp; subst. inversion Hq; subst. f_equal; [|eapply IH; eauto].
-    destruct (Hx eq_refl) as (z & Hz). cbn in Hz. subst l.
-    apply index_of_some_in in Ex. apply index_of_some_in in Ey.
-    destruct Ex as [<-|[]]. destruct Ey as [<-|[]]. reflexivity.
+  - apply NoDup_flat_map.
+    + apply positions_from_nodup.
+    + intros k _. apply FinFun.Injective_map_NoDup; auto. intros a b E. now inversion E.
+    + intros k k' y _ _ Hy Hy'. apply in_map_iff in Hy as (a & <- & _). apply in_map_iff in Hy' as (b & E & _).
+      now inversion E.
+  - destruct (Hx eq_refl) as (z & Hz). cbn in Hz. subst l. cbn [positions_from].
+    destruct (Nat.eqb x z); cbn [flat_map]; [|constructor]. rewrite app_nil_r, map_id. apply IH.
 Qed.
 
-Lemma renumber_total ls p : Forall2 (fun x l => In x l) p (map snd ls) -> exists j, renumber ls p = Some j.
+Section G.
+Context {V : Type} (v0 : V) (isz : V -> bool).
+
+Lemma last_match_app (j : idx) (l1 l2 : list (idx * V)) d :
+  last_match j (l1 ++ l2) d = last_match j l2 (last_match j l1 d).
+Proof. revert d; induction l1 as [|[q v] r IH]; intros d; cbn [app last_match]; auto. Qed.
+
+Lemma last_match_const (j : idx) (js : list idx) (v d : V) :
+  last_match j (map (fun j' => (j', v)) js) d = if memb j js then v else d.
 Proof.
-  revert p; induction ls as [|[kept l] ls IH]; intros p H; inversion H as [|x l' t r Hx Ht]; subst; cbn; eauto.
-  destruct (index_of_in x l Hx) as (k & ->). destruct (IH t Ht) as (j & ->). eauto.
+  revert d; induction js as [|j' js IH]; intros d; cbn [map last_match]; auto.
+  rewrite IH. unfold memb. cbn [existsb]. fold (memb j js).
+  destruct (idx_eqb j j'), (memb j js); reflexivity.
 Qed.
 
-Definition region_sel (ls : list (bool * list nat)) (es : list (idx * V)) : list (idx * V) :=
-  flat_map (fun e : idx * V => match renumber ls (fst e) with Some j => [(j, snd e)] | None => [] end) es.
-
-Lemma last_match_region_sel ls es p j d : drop_single ls -> renumber ls p = Some j ->
-  last_match j (region_sel ls es) d = last_match p es d.
+Lemma memb_renumber_all ls j q : drop_single ls -> inb (kept_shape ls) j = true ->
+  memb j (renumber_all ls q) = idx_eqb (select ls j) q.
 Proof.
-  intros Hs Hp. revert d; induction es as [|[q v] r IH]; intros d; cbn [region_sel flat_map fst snd last_match]; auto.
-  fold (region_sel ls r). destruct (renumber ls q) as [j'|] eqn:Rq; cbn [app last_match].
-  - rewrite IH. f_equal.
-    destruct (idx_eqb j j') eqn:E.
-    + apply idx_eqb_spec in E. subst j'. rewrite (renumber_inj ls Hs p q j Hp Rq). now rewrite idx_eqb_refl.
-    + destruct (idx_eqb p q) eqn:E'; auto. apply idx_eqb_spec in E'. subst q.
-      rewrite Hp in Rq. inversion Rq. subst. rewrite idx_eqb_refl in E. discriminate.
-  - rewrite IH. f_equal. destruct (idx_eqb p q) eqn:E'; auto. apply idx_eqb_spec in E'. subst q. congruence.
+  intros Hs Hj. apply eq_true_iff_eq. rewrite memb_spec. split.
+  - intros H. apply (renumber_all_sound ls Hs) in H as [_ <-]. apply idx_eqb_refl.
+  - intros H. apply idx_eqb_spec in H. subst q. now apply renumber_all_complete.
 Qed.
 
-(* every position p of the region is present in the result under its renumbered subscript j and reads the same value *)
+Lemma last_match_region_sel_all ls (es : list (idx * V)) j d : drop_single ls -> inb (kept_shape ls) j = true ->
+  last_match j (region_sel_all ls es) d = last_match (select ls j) es d.
+Proof.
+  intros Hs Hj. revert d; induction es as [|[q v] r IH]; intros d; cbn [region_sel_all flat_map fst snd last_match]; auto.
+  fold (region_sel_all ls r). rewrite last_match_app, last_match_const, IH. f_equal.
+  now rewrite memb_renumber_all.
+Qed.
+
+(* EVERY subscript j of the result reads what the source holds at the position j selects *)
 Theorem sp_region_get_den (S R : sparse V) es ls :
   region_lists (sshape S) es = Some ls -> sp_region_get S es = Some R ->
   sshape R = kept_shape ls /\
-  (forall p, In p (cartF (map snd ls)) -> exists j, renumber ls p = Some j) /\
-  (forall p j, renumber ls p = Some j -> den_sp v0 R j = den_sp v0 S p).
+  (forall j, inb (kept_shape ls) j = true -> den_sp v0 R j = den_sp v0 S (select ls j)).
 Proof.
   intros Hl Hg. unfold sp_region_get in Hg. rewrite Hl in Hg. inversion Hg; subst. clear Hg.
-  split; [reflexivity|]. split.
-  - intros p Hp. apply renumber_total. now apply in_cartF.
-  - intros p j Hp. rewrite den_of_entries. unfold den_sp.
-    apply (last_match_region_sel ls (entries S) p j v0); auto. eapply region_lists_single; eauto.
+  split; [reflexivity|]. intros j Hj. rewrite den_of_entries. unfold den_sp.
+  apply last_match_region_sel_all; auto. eapply region_lists_single; eauto.
+Qed.
+
+Lemma region_sel_all_in ls (es : list (idx * V)) e :
+  In e (region_sel_all ls es) -> exists q, In (q, snd e) es /\ In (fst e) (renumber_all ls q).
+Proof.
+  unfold region_sel_all. rewrite in_flat_map. intros ([q v] & Hin & He). cbn [fst snd] in He.
+  apply in_map_iff in He as (j & <- & Hj). cbn. eauto.
+Qed.
+
+Lemma map_fst_region_sel_all ls (es : list (idx * V)) :
+  map fst (region_sel_all ls es) = flat_map (fun e : idx * V => renumber_all ls (fst e)) es.
+Proof.
+  induction es as [|[q v] r IH]; cbn; auto. fold (region_sel_all ls r).
+  rewrite map_app, IH, map_map. cbn. now rewrite map_id.
+Qed.
+
+Lemma region_sel_all_nodup ls (es : list (idx * V)) :
+  drop_single ls -> NoDup (map fst es) -> NoDup (map fst (region_sel_all ls es)).
+Proof.
+  intros Hs Hn. rewrite map_fst_region_sel_all.
+  induction es as [|[q v] r IH]; cbn; [constructor|]. inversion Hn as [|? ? Hq Hn']; subst.
+  apply NoDup_app_intro; auto.
+  - now apply renumber_all_nodup.
+  - intros j Hj F. apply in_flat_map in F as ([q' v'] & Hin & Hj'). cbn in Hj'.
+    apply (renumber_all_sound ls Hs) in Hj as [_ E1]. apply (renumber_all_sound ls Hs) in Hj' as [_ E2].
+    apply Hq. apply in_map_iff. exists (q', v'). cbn. split; [congruence|auto].
+Qed.
+
+(* the returned sptensor is well-formed (in bounds of the kept shape, no duplicate subscript, no stored zero,
+   |subs| = |vals|), whatever the stored order of the source and however often the key lists repeat an index *)
+Theorem sp_region_get_wf (S R : sparse V) es :
+  wf_sp isz S -> sp_region_get S es = Some R -> wf_sp isz R.
+Proof.
+  intros W Hg. unfold sp_region_get in Hg.
+  destruct (region_lists (sshape S) es) as [ls|] eqn:Hl; [|discriminate]. inversion Hg; subst. clear Hg.
+  apply wf_sp_of_entries.
+  destruct (wf_es_entries isz S W) as [Hn He].
+  assert (Hs : drop_single ls) by (eapply region_lists_single; eauto).
+  split.
+  - apply region_sel_all_nodup; auto.
+  - intros e Hin. apply region_sel_all_in in Hin as (q & Hin & R). split.
+    + now apply (renumber_all_sound ls Hs) in R as [R _].
+    + apply (He (q, snd e) Hin).
+Qed.
+
+(* nothing is invented: one stored entry per (stored source entry, result subscript that selects it) *)
+Theorem sp_region_get_nnz (S R : sparse V) es ls :
+  region_lists (sshape S) es = Some ls -> sp_region_get S es = Some R ->
+  length (ssubs R) = list_sum (map (fun e : idx * V => length (renumber_all ls (fst e))) (entries S)).
+Proof.
+  intros Hl Hg. unfold sp_region_get in Hg. rewrite Hl in Hg. inversion Hg; subst. clear Hg.
+  unfold of_entries. cbn [ssubs]. rewrite map_length.
+  induction (entries S) as [|[q v] r IH]; cbn; auto. fold (region_sel_all ls r).
+  now rewrite app_length, map_length, IH.
 Qed.
 End G.
+
+(* keys whose lists do not repeat an index: every stored entry inside the region lands on exactly ONE subscript, the position
+   of its indices inside the lists (the filter + tt_renumber reading of wave 2: renumber / index_of) *)
+Lemma positions_from_index_of x l : NoDup l -> forall k0,
+  positions_from k0 x l = match index_of x l with Some k => [k0 + k] | None => [] end.
+Proof.
+  induction 1 as [|y r Hy Hn IH]; intros k0; cbn; auto.
+  destruct (Nat.eqb_spec x y) as [->|Hne].
+  - rewrite Nat.add_0_r. f_equal. rewrite IH.
+    destruct (index_of y r) as [k|] eqn:E; auto. exfalso. apply Hy.
+    clear -E. revert k E. induction r as [|z r IH]; intros k E; cbn in E; [discriminate|].
+    destruct (Nat.eqb_spec y z) as [->|Hne]; cbn; auto.
+    destruct (index_of y r); [|discriminate]. right. eapply IH; eauto.
+  - rewrite IH. destruct (index_of x r); cbn; auto. f_equal. lia.
+Qed.
+
+Lemma renumber_all_nodup_lists ls : Forall (fun x : bool * list nat => NoDup (snd x)) ls -> forall p,
+  renumber_all ls p = match renumber ls p with Some j => [j] | None => [] end.
+Proof.
+  induction 1 as [|[kept l] ls Hx Hls IH]; intros [|x p]; cbn [renumber_all renumber]; auto.
+  cbn in Hx. rewrite (positions_from_index_of x l Hx 0), IH.
+  destruct (index_of x l) as [k|]; cbn; auto.
+  destruct (renumber ls p) as [r|]; cbn; auto.
+Qed.
